@@ -197,7 +197,9 @@ def chains_batch(acc, batch):
 
 # ------------------------------------------------------------------------------------------ realfs
 
-INPUT_KINDS = {"file": True, "dir": True, "symlink_to_file": True, "symlink_to_dir": True, "empty_file": True, "missing": False, "broken_symlink": False}
+INPUT_KINDS = {"file": True, "dir": True, "symlink_to_file": True, "symlink_to_dir": True, "empty_file": True, "missing": False, "broken_symlink": False,
+               # no file of that name can exist: a path component is a regular file / the name is a symbolic link that points at itself
+               "under_a_file": False, "symlink_loop": False}
 
 
 def realfs_batch(acc, batch):
@@ -226,7 +228,12 @@ def realfs_batch(acc, batch):
             os.symlink("other", p)
         elif kind == "broken_symlink":
             os.symlink("nowhere", p)
-        inp = p if spelled_abs else "inp"
+        elif kind == "symlink_loop":
+            os.symlink("inp", p)
+        elif kind == "under_a_file":
+            open(os.path.join(base, "plain"), "w").write("x")
+            p = os.path.join(base, "plain", "inp")
+        inp = p if spelled_abs else os.path.relpath(p, base)
         targets = {f"T{i}": gwfh.mk_target(f"T{i}", [inp], [f"out{i}"], working_dir=base) for i in range(consumers)}
         try:
             Graph.from_targets(targets, CachedFilesystem())
